@@ -45,6 +45,13 @@ pub fn collector_case(code: &str, opts: &Opts, cyclic: bool) -> CaseOut {
 }
 
 const CYCLE_SHAPES: &[&str] = &[
+	// cycles that pass through an already evaluated argument (native callbacks, tailstrict, keyF): the result
+	// captures the parameter and is cached inside the value that was passed
+	"{ a: 1, items: std.map(function(i) { v: i.a }, [self]) }",
+	"local f(x) = { v: x.a }; { a: 1, b: f(self) tailstrict }",
+	"{ a: 1, r: std.foldl(function(acc, i) { v: i.a, prev: acc }, [self, self], null) }",
+	"{ a: 1, s: std.length(std.sort([self], keyF=function(o) o.a)), m: std.mapWithIndex(function(i, o) { back: o.a }, [self]) }",
+	"local o = { a: 1, fs: std.filterMap(function(x) true, function(x) function() x.a, [self]) }; o.fs[0]()",
 	"{ a: self, b: 1 }.b",
 	"local o = { a: self.b, b: [self.a, $], c: $ }; std.length(o.b)",
 	"local f(x) = if x == 0 then [] else [f] + f(x - 1); std.length(f(5))",
